@@ -130,6 +130,8 @@ def _range_case(vals, acc):
 
 def run(ctx):
     rep = ctx.new_report()
+    from vlib.ref import noise as _noise
+    E.set_noise(_noise.specs_noise())
     nums = NUMS + ['%d' % (3 + ctx.seed % 90)]
     E.run(rep, 'numeric', [list(NUM_OPS), nums, nums, WS], _num_case)
     E.run(rep, 'string', [list(STR_OPS), STRS, STRS, WS], _str_case)
